@@ -76,6 +76,8 @@ pub struct FrameRenderHandle<S: Sample> {
     pub(crate) condvar: Condvar,
     pub(crate) render_op: RenderOp<S>,
     pub(crate) refs: [Option<Reference<S>>; 4],
+    #[cfg(jxl_oxide_verif)]
+    pub(crate) verif_exec: crate::verif::ExecCounters,
 }
 
 impl<S: Sample> std::fmt::Debug for FrameRenderHandle<S> {
@@ -102,6 +104,8 @@ impl<S: Sample> FrameRenderHandle<S> {
             condvar: Condvar::new(),
             render_op,
             refs,
+            #[cfg(jxl_oxide_verif)]
+            verif_exec: Default::default(),
         }
     }
 
@@ -121,6 +125,8 @@ impl<S: Sample> FrameRenderHandle<S> {
             condvar: Condvar::new(),
             render_op,
             refs,
+            #[cfg(jxl_oxide_verif)]
+            verif_exec: Default::default(),
         }
     }
 
@@ -128,7 +134,11 @@ impl<S: Sample> FrameRenderHandle<S> {
         let render = if let Some(state) = self.start_render()? {
             let _guard = tracing::trace_span!("Run with image", index = self.frame.idx).entered();
 
+            #[cfg(jxl_oxide_verif)]
+            self.verif_op_enter();
             let render_result = (self.render_op)(state, self.image_region);
+            #[cfg(jxl_oxide_verif)]
+            self.verif_op_exit(&render_result);
             match render_result {
                 FrameRender::InProgress(_) => {
                     drop(self.done_render(render_result));
@@ -153,17 +163,25 @@ impl<S: Sample> FrameRenderHandle<S> {
         if let Some(state) = self.start_render_silent() {
             let _guard = tracing::trace_span!("Run", index = self.frame.idx).entered();
 
+            #[cfg(jxl_oxide_verif)]
+            self.verif_op_enter();
             let render_result = (self.render_op)(state, image_region);
+            #[cfg(jxl_oxide_verif)]
+            self.verif_op_exit(&render_result);
             drop(self.done_render(render_result));
         }
     }
 
     pub fn reset(&self) -> FrameRender<S> {
+        #[cfg(jxl_oxide_verif)]
+        crate::verif::verif_sched("reset:lock", self.frame.idx);
         let mut render_ref = self.render.lock().unwrap();
         std::mem::replace(&mut *render_ref, FrameRender::None)
     }
 
     fn start_render(&self) -> Result<Option<FrameRender<S>>> {
+        #[cfg(jxl_oxide_verif)]
+        crate::verif::verif_sched("start_render:lock", self.frame.idx);
         let mut render_ref = self.render.lock().unwrap();
         let render = std::mem::replace(&mut *render_ref, FrameRender::Rendering);
         match render {
@@ -184,6 +202,8 @@ impl<S: Sample> FrameRenderHandle<S> {
     }
 
     fn start_render_silent(&self) -> Option<FrameRender<S>> {
+        #[cfg(jxl_oxide_verif)]
+        crate::verif::verif_sched("start_render_silent:lock", self.frame.idx);
         let mut render_ref = self.render.lock().unwrap();
         let render = std::mem::replace(&mut *render_ref, FrameRender::Rendering);
         match render {
@@ -196,6 +216,8 @@ impl<S: Sample> FrameRenderHandle<S> {
     }
 
     pub(crate) fn wait_until_render(&self) -> Result<MutexGuard<'_, FrameRender<S>>> {
+        #[cfg(jxl_oxide_verif)]
+        crate::verif::verif_sched("wait_until_render:lock", self.frame.idx);
         let mut render_ref = self.render.lock().unwrap();
         loop {
             let render = std::mem::replace(&mut *render_ref, FrameRender::None);
@@ -203,7 +225,11 @@ impl<S: Sample> FrameRenderHandle<S> {
                 FrameRender::Rendering => {
                     tracing::trace!(index = self.frame.idx, "Waiting...");
                     *render_ref = render;
+                    #[cfg(jxl_oxide_verif)]
+                    crate::verif::verif_sched("wait_until_render:before_wait", self.frame.idx);
                     render_ref = self.condvar.wait(render_ref).unwrap();
+                    #[cfg(jxl_oxide_verif)]
+                    crate::verif::verif_sched("wait_until_render:after_wait", self.frame.idx);
                 }
                 FrameRender::Done(_) | FrameRender::Blended(_) => {
                     *render_ref = render;
@@ -220,9 +246,56 @@ impl<S: Sample> FrameRenderHandle<S> {
 
     pub(crate) fn done_render(&self, render: FrameRender<S>) -> MutexGuard<'_, FrameRender<S>> {
         assert!(!matches!(render, FrameRender::Rendering));
+        #[cfg(jxl_oxide_verif)]
+        crate::verif::verif_sched("done_render:lock", self.frame.idx);
         let mut guard = self.render.lock().unwrap();
         *guard = render;
+        #[cfg(jxl_oxide_verif)]
+        crate::verif::verif_sched("done_render:notify_all", self.frame.idx);
         self.condvar.notify_all();
         guard
+    }
+}
+
+/// Verification hooks H3/H4 (see `crate::verif`).
+#[cfg(jxl_oxide_verif)]
+impl<S: Sample> FrameRenderHandle<S> {
+    /// Name of the current state; `"Locked"` if the mutex is held right now.
+    pub fn verif_state_name(&self) -> &'static str {
+        use std::sync::TryLockError;
+        let guard = match self.render.try_lock() {
+            Ok(guard) => guard,
+            Err(TryLockError::WouldBlock) => return "Locked",
+            Err(TryLockError::Poisoned(e)) => e.into_inner(),
+        };
+        Self::verif_name_of(&guard)
+    }
+
+    pub(crate) fn verif_name_of(render: &FrameRender<S>) -> &'static str {
+        match render {
+            FrameRender::None => "None",
+            FrameRender::Rendering => "Rendering",
+            FrameRender::InProgress(_) => "InProgress",
+            FrameRender::Done(_) => "Done",
+            FrameRender::Blended(_) => "Blended",
+            FrameRender::Err(_) => "Err",
+            FrameRender::ErrTaken => "ErrTaken",
+        }
+    }
+
+    fn verif_op_enter(&self) {
+        self.verif_exec.enter(false);
+        crate::verif::verif_sched("render_op:enter", self.frame.idx);
+    }
+
+    fn verif_op_exit(&self, result: &FrameRender<S>) {
+        self.verif_exec.exit();
+        let point = match result {
+            FrameRender::Done(_) => "render_op:exit:done",
+            FrameRender::InProgress(_) => "render_op:exit:inprogress",
+            FrameRender::Err(_) => "render_op:exit:err",
+            _ => "render_op:exit:other",
+        };
+        crate::verif::verif_sched(point, self.frame.idx);
     }
 }
